@@ -277,10 +277,11 @@ def uc_case(cid, rng, s, scheme="2w"):
     fname = "Dense%sDHAdditiveGeneticVarianceMatrixFactory" % way
     F = getattr(importlib.import_module("pybrops.model.vmat.fcty." + fname), fname)
     shares = {"2w": [0.5, 0.5], "3w": [0.5, 0.25, 0.25], "4w": [0.25] * 4}[scheme]
-    chroms = layout(rng)
+    chroms = layout(rng, multi=True)          # a chromosome of three linked markers: the variance then depends on the selfing depth
     L = sum(len(c) for c in chroms); n = rng.randrange(2, 5) if K == 2 else rng.randrange(2, 4); T = rng.randrange(1, 3)
     A = np.array([[rng.randrange(2) for _ in range(L)] for _ in range(n)], dtype="int8")
     u = np.array([[rng.choice([-2, -1, 1, 2]) for _ in range(T)] for _ in range(L)], dtype=float)
+    A[0, :3] = [1, 0, 1]; A[1, :3] = [0, 1, 0]    # two parents in repulsion at the linked markers
     chrgrp = np.array([k + 1 for k, ch in enumerate(chroms) for _ in ch], dtype="int64")
     pg = DensePhasedGenotypeMatrix(np.stack([A, A]), taxa=np.array(["p%d" % i for i in range(n)], dtype=object),
                                    taxa_grp=np.arange(n, dtype="int64"), vrnt_chrgrp=chrgrp, vrnt_phypos=np.arange(1, L + 1, dtype="int64"),
